@@ -795,6 +795,12 @@ class EphemeralAuthenticatedOnionService(object):
         """
         IAuthenticatedOnionClients API
         """
+        if self._private_key in (None, DISCARD):
+            # we never hold the key (DiscardPK): the id is what Tor
+            # answered to ADD_ONION (not known before that)
+            if not self._hostname:
+                return None
+            return self._hostname[:-len('.onion')]
         assert '\n' not in self._private_key
         # why are we sometimes putting e.g. "RSA1024:xxxx" and
         # sometimes not? Should be one or the other
